@@ -188,4 +188,69 @@ Section Proofs3.
     all: rewrite ?(det3_mneg R r0 r1 radd rmul rsub ropp Rth) by assumption.
     all: symmetry; exact Hcube.
   Qed.
+
+  (* ------------------------------------------------------------ PolyAffine.left_compose *)
+  (* kernel as a normalised weighted sum: T(y) = sum_i w_i(y) T_i y, the weights are an oracle function of y *)
+  Local Notation vec := (list R).
+  Local Notation Happly := (happly r0 r1 radd rmul).
+  Fixpoint wsum (ws : vec) (vs : list vec) : vec :=
+    match ws, vs with
+    | w :: ws', v :: vs' => vadd radd (vscale rmul w v) (wsum ws' vs')
+    | _, _ => vzero r0 3
+    end.
+  Fixpoint vtotal (ws : vec) : R := match ws with [] => r0 | w :: ws' => radd w (vtotal ws') end.
+  Definition pa_kernel (w : vec -> vec) (Ts : list mat) (y : vec) : vec :=
+    wsum (w y) (map (fun T => Happly T y) Ts).
+  Definition pa_first (glob : option mat) (x : vec) : vec :=
+    match glob with None => x | Some G => Happly G x end.
+  Definition pa_apply_w (w : vec -> vec) (glob : option mat) (Ts : list mat) (x : vec) : vec :=
+    pa_kernel w Ts (pa_first glob x).
+  (* left_compose(other = A): shapes translated from the source *)
+  Definition pa_left_glob (glob : option mat) : option mat := if src_pa_left_keeps_glob then glob else None.
+  Definition pa_left_locals (Ts : list mat) (A : mat) : list mat :=
+    map (fun T => if src_pa_left_other_left then Mm 4 A T else Mm 4 T A) Ts.
+
+  Lemma wsum_affine a b c d e f g h i t0 t1 t2 ws vs :
+    let A := [[a; b; c; t0]; [d; e; f; t1]; [g; h; i; t2]; [r0; r0; r0; r1]] in
+    Forall (fun v => length v = 3) vs -> length ws = length vs ->
+    exists p q r, wsum ws vs = [p; q; r] /\
+      wsum ws (map (Happly A) vs) =
+      [radd (radd (radd (rmul a p) (rmul b q)) (rmul c r)) (rmul (vtotal ws) t0);
+       radd (radd (radd (rmul d p) (rmul e q)) (rmul f r)) (rmul (vtotal ws) t1);
+       radd (radd (radd (rmul g p) (rmul h q)) (rmul i r)) (rmul (vtotal ws) t2)].
+  Proof.
+    intros A Hv. revert ws. induction Hv as [|v vs Hl Hvs IH]; intros ws Hlen.
+    - destruct ws; [|discriminate]. exists r0, r0, r0. split; [reflexivity|]. cbn. list_eq; ring.
+    - destruct ws as [|w ws]; [discriminate|]. injection Hlen as Hlen.
+      destruct (IH ws Hlen) as (p & q & r & E1 & E2).
+      destruct (len3_inv R v Hl) as (x & y & z & ->).
+      exists (radd (rmul w x) p), (radd (rmul w y) q), (radd (rmul w z) r). split.
+      + cbn [wsum]. rewrite E1. reflexivity.
+      + cbn [map wsum]. rewrite E2. cbn. list_eq; ring.
+  Qed.
+
+  Lemma polyaffine_left_compose_apply_lemma (w : vec -> vec) glob Ts A x :
+    WfAff 3 3 A -> Forall (WfAff 3 3) Ts -> (forall G, glob = Some G -> WfAff 3 3 G) -> length x = 3 ->
+    length (w (pa_first glob x)) = length Ts -> vtotal (w (pa_first glob x)) = r1 ->
+    pa_apply_w w (pa_left_glob glob) (pa_left_locals Ts A) x = Happly A (pa_apply_w w glob Ts x).
+  Proof.
+    intros HA HT HG Hx Hlen Hsum.
+    unfold pa_apply_w, pa_left_glob, pa_left_locals, src_pa_left_keeps_glob, src_pa_left_other_left, pa_kernel.
+    set (y := pa_first glob x) in *.
+    assert (Hy : length y = 3).
+    { unfold y, pa_first. destruct glob as [G|]; [|exact Hx].
+      apply (happly_length R r0 r1 radd rmul 3 3). now apply HG. }
+    rewrite map_map.
+    assert (E : map (fun T => Happly (Mm 4 A T) y) Ts = map (Happly A) (map (fun T => Happly T y) Ts)).
+    { rewrite map_map. apply map_ext_in. intros T HTin. rewrite Forall_forall in HT.
+      now apply (happly_mm R r0 r1 radd rmul rsub ropp Rth 3 3 3); [|apply HT|]. }
+    rewrite E.
+    destruct (wf_aff33_inv R r0 r1 A HA) as (a & b & c & d & e & f & g & h & i & t0 & t1 & t2 & ->).
+    assert (Hv : Forall (fun v => length v = 3) (map (fun T => Happly T y) Ts)).
+    { apply Forall_forall. intros v Hin. apply in_map_iff in Hin. destruct Hin as (T & <- & HTin).
+      rewrite Forall_forall in HT. apply (happly_length R r0 r1 radd rmul 3 3). now apply HT. }
+    assert (Hl : length (w y) = length (map (fun T => Happly T y) Ts)) by (now rewrite map_length).
+    destruct (wsum_affine a b c d e f g h i t0 t1 t2 _ _ Hv Hl) as (p & q & r & E1 & E2).
+    rewrite E2, E1, Hsum. cbn. list_eq; ring.
+  Qed.
 End Proofs3.
